@@ -184,6 +184,8 @@ pub struct World {
   pub built: Mutex<BTreeMap<usize, TBox>>,
   pub handles: Mutex<Vec<Option<BoxSubscriptionThreads>>>,
   pub statuses: Mutex<Vec<Arc<rxrust::ops::complete_status::CompleteStatus>>>,
+  /// published observables: (the connectable until connect() consumes it, a fork of its subject)
+  pub published: Mutex<BTreeMap<usize, (Option<ConnectableObservable<TBox, TSubject>>, TSubject)>>,
   /// who created handle h (same key as the probe / task it belongs to)
   pub hnames: Mutex<Vec<String>>,
   pub off: i64,
@@ -202,12 +204,36 @@ impl World {
     b[&root].clone()
   }
 
+  fn publish_fork(&self, root: usize) -> TSubject {
+    let src = self.built(self.env.prog[root - 1].s1);
+    let mut p = self.published.lock().unwrap();
+    p.entry(root)
+      .or_insert_with(|| {
+        let c = src.publish::<TSubject>();
+        let fork = c.fork();
+        (Some(c), fork)
+      })
+      .1
+      .clone()
+  }
+
   /// one API call; `name` = canonical name of a probe this call creates
   pub fn call(&self, s: &Stim, name: String) -> Val {
     match s.k.as_str() {
+      "connect" => {
+        let root = s.a as usize;
+        let _ = self.publish_fork(root);
+        let c = self.published.lock().unwrap().get_mut(&root).unwrap().0.take().expect("connect twice");
+        let h = BoxSubscriptionThreads::new(c.connect());
+        self.handles.lock().unwrap().push(Some(h));
+        self.hnames.lock().unwrap().push(name);
+        Val::U
+      }
       "sub" => {
         let root = s.a as usize; // the scripts of cases.json use the local AST indices
-        let h = if self.env.prog[root - 1].op == "status" {
+        let h = if self.env.prog[root - 1].op == "publish" {
+          BoxSubscriptionThreads::new(self.publish_fork(root).actual_subscribe(CProbe { name: name.clone() }))
+        } else if self.env.prog[root - 1].op == "status" {
           let src = self.built(self.env.prog[root - 1].s1);
           let (op, status) = src.complete_status();
           self.statuses.lock().unwrap().push(status);
@@ -365,6 +391,7 @@ pub fn run_once(case: &CaseSpec, prefix: &[usize]) -> RunResult {
     built: Mutex::new(BTreeMap::new()),
     handles: Mutex::new(vec![]),
     statuses: Mutex::new(vec![]),
+    published: Mutex::new(BTreeMap::new()),
     hnames: Mutex::new(vec![]),
     off: case.off,
   });
